@@ -27,6 +27,20 @@ CHECKS = {
              text='Contents constructed from the specification capacity tables so that the terminated stream hits every residue mod 8 and '
                   'every distance 0..12 to capacity; TLC compares the decoded tail with IsoTail clause by clause; the known deviation '
                   '(zero codeword when aligned) is recognised only when the named deviation operator reproduces the tail exactly.', ref='6 C13'),
+
+ 'C04': dict(tech='TLA+ decision model (spec/Decide.tla) model-checked with TLC; its terminal states exported as vectors, replayed into make(), observations validated against the model (Trace_Decide)',
+             text='TLC checks the operational model of the version search against the declarative C04 invariants on the whole enumerated '
+                  'argument space and exports every capacity-boundary vector with the predicted outcome; each vector is executed against '
+                  'segno and TLC validates the observation (version from matrix size/format information, DataOverflowError iff predicted). '
+                  'Symbol-level clauses (never truncated, smallest for the segmentation used) cover multi-part content.', ref='6 C04'),
+ 'C05': dict(tech='TLA+ decision model (Decide.tla: Boost action, C05_* invariants) + trace validation of the level read from the format information',
+             text='Same vectors as C04 plus the capacity boundary of each level of each version x requested level x boost; TLC compares the '
+                  'level found in the format information of the observed matrix with the level the model reaches, and evaluates '
+                  'level>=request / no H in Micro / exact level without boosting on random multi-part symbols.', ref='6 C05'),
+ 'C07': dict(tech='TLA+ byte classification and mode choice (Decide!ClassOfBytes, Prepare action) validated against recorded calls by TLC',
+             text='All one-byte inputs, all lead bytes x boundary trail bytes (thorough: all 65 536 two-byte inputs), every requested mode x '
+                  'representable or not x version: TLC classifies the bytes, runs the model and compares refusal, the mode indicator read '
+                  'from the matrix and the reported mode.', ref='6 C07'),
 }
 
 NOT_YET = {}
